@@ -28,8 +28,10 @@ TRUSTED_BASE = [
     "hand-written model GraphiqModel/Model/{Gauss,DMSem,Noise}.lean tied to compiler_base.py, noise_models.py, stabilizer/state.py, "
     "density_matrix/{state,functions,compiler}.py, stabilizer/compiler.py by this correspondence run",
     "Model/Tableau.lean (C07) for the per-branch tableau operations",
-    "clause (c) (DM = sum_k p_k rho(T_k), measurement-free circuits, all n) is proved about the exact models (Properties/C06.lean: "
-    "dm_equals_mixture); the driver's per-input evaluation of both sides (n<=4) now only tests the compiled definitions against numpy",
+    "clause (c) (DM = sum_k p_k rho(T_k): measurement-free circuits, and circuits whose measurements find all branches agreeing - the model's "
+    "nonUniform flag off, weight > 2e-8 - all n) is proved about the exact models (Properties/C06.lean: dm_equals_mixture, "
+    "dm_equals_mixture_with_uniform_measurements); the driver's per-input evaluation of both sides (n<=4) now only tests the compiled "
+    "definitions against numpy; the harness uses the same flag to separate finding F2 from a genuine backend disagreement",
     "positivity of the *floating-point* matrix is checked by the oracle (min eigenvalue >= -1e-9), not proved",
     "harness, line protocol, logging noise wrappers, numpy reference converter",
 ]
